@@ -383,8 +383,23 @@ namespace nrf52_details
 
     bluetoe::details::uint128_t security_tool_box::create_passkey()
     {
+        // A passkey is a 6 digit decimal number (000000 - 999999). To get an uniform distribution,
+        // 20 bit random numbers (0 - 1048575) are drawn, until one is within the range.
+        static constexpr std::uint32_t max_passkey = 999999;
+
+        std::uint32_t passkey;
+
+        do
+        {
+            passkey = static_cast< std::uint32_t >( random_number16() )
+                | ( static_cast< std::uint32_t >( random_number8() & 0x0f ) << 16 );
+        }
+        while ( passkey > max_passkey );
+
         const bluetoe::details::uint128_t result{{
-            random_number8(), random_number8(), random_number8()
+            static_cast< std::uint8_t >( passkey & 0xff ),
+            static_cast< std::uint8_t >( ( passkey >> 8 ) & 0xff ),
+            static_cast< std::uint8_t >( ( passkey >> 16 ) & 0xff )
         }};
 
         return result;
